@@ -80,6 +80,11 @@ def check_aug(ctx, b, nadd, steep, label):
         want = expected_new(el, nadd, steep)
         got = {}
         for sh in added:
+            kinds = {s0['function_type'] for s0 in old if sh['angular_momentum'][0] in s0['angular_momentum']}
+            if len(sh['angular_momentum']) == 1 and kinds and sh['function_type'] not in kinds:
+                ctx.violation(site, 'function-type', 'element %s: an added l=%d function is %s, the functions it continues are %s'
+                              % (z, sh['angular_momentum'][0], sh['function_type'], sorted(kinds)), replay)
+                break
             if len(sh['exponents']) != 1 or len(sh['coefficients']) != 1 or fr(sh['coefficients'][0][0]) != 1 or len(sh['angular_momentum']) != 1:
                 ctx.violation(site, 'shape', 'element %s: an added shell is not a single unit-coefficient primitive' % z, replay)
                 break
@@ -193,6 +198,20 @@ def work_store(ctx, item):
     ctx.sample({'store': label, 'nadd': [1, 2], 'months': MONTHS if name.startswith('aug-') else []})
 
 
+def work_mixed_kinds(ctx, item):
+    name, version = item
+    r = store.get_basis(name, version, elements=[13, 17, 31, 35])
+    if r[0] != 'ok':
+        return
+    b = r[1]
+    label = '%s/%s[13,17,31,35]' % (name, version)
+    for nadd in (1, 2):
+        for steep in (False, True):
+            check_aug(ctx, b, nadd, steep, label)
+    for nd, ns in ((1, 0), (1, 1)):
+        check_get_basis_aug(ctx, name, version, ['13', '17', '31', '35'], b, nd, ns)
+
+
 def work_generated(ctx, seed):
     rng = random.Random(seed)
     b = gen.gen_basis(rng, nel=1)
@@ -224,7 +243,10 @@ def run(ctx):
         names += ctx.rng.sample([k for k in orb if k.startswith('aug-')], 8)
         names += [k for k in ('aug-cc-pvtz-j', 'aug-cc-pvdz', 'aug-cc-pwcvtz-pp') if k in orb]   # single-primitive top momenta
         pairs = [(n, md[n]['latest_version']) for n in names]
+    # a basis whose d functions are cartesian for some elements and spherical for others, with elements of each kind
+    mixed = [k for k in ('6-311g_st_', '6-311g_st__st_') if k in orb]
     store.parallel(ctx, work_store, pairs)
+    store.parallel(ctx, work_mixed_kinds, [(k, md[k]['latest_version']) for k in mixed])
     store.parallel(ctx, work_generated, [ctx.seed * 173 + i for i in range(ctx.budget(80, 4000))])
 
 
